@@ -131,6 +131,17 @@ def run_real_c12(case):
             res.violation("real-missing-runs", "expected %d started scripts, journal has %d" % (n + 1, nint), journal=ev[:60])
         res.sig = ("real", cores, n, nskip)
         res.nontrivial = True
+    # ---- the configured number of workers counts, not the number of CPUs the pool process happens to be allowed on:
+    # `gwf workers -n 3` pinned to one CPU still runs three (sleeping) tasks side by side
+    if case["seed"] % 2 == 0:
+        with gen.Project() as proj3:
+            proj3.write_workflow("from gwf import Workflow\ngwf = Workflow()\n")
+            with realpool.Pool(proj3, ncores=3, affinity={sorted(os.sched_getaffinity(0))[0]}) as pool3:
+                ids3 = [pool3.raw_enqueue("p%d" % i, "sleep 3", proj3.root) for i in range(3)]
+                ok3 = pool3.wait_states(lambda st: all(st.get(t_) == "RUNNING" for t_ in ids3), timeout=2.5)
+                res.mon("pinned_pool_checked")
+                if not ok3:
+                    res.violation("idle-core", "a pool started with -n 3 but pinned to one CPU runs %s: configured cores stay idle while ready tasks wait" % sorted(pool3.states().values()))
     return res
 
 
